@@ -110,6 +110,7 @@ Definition valid_opts (o : opts) : Prop :=
   /\ - 2 ^ 64 * 100 <= offset_ns o <= 2 ^ 64 * 100.
 Definition valid (c : case) : Prop :=
   match c with
-  | CBytes dk o _ | CNest dk o _ _ _ => valid_opts o
+  | CBytes dk o bs => valid_opts o /\ Forall is_byte bs
+  | CNest dk o u _ tail => valid_opts o /\ Forall is_byte u /\ Forall is_byte tail
   | CSizes => True
   end.
